@@ -10,6 +10,9 @@ verus! {
 global size_of usize == 8;
 
 //@enum file=yarel/src/chunk.rs name=OpCode
+pub uninterp spec fn opcode_byte(op: OpCode) -> u8;
+#[verifier::external_body]
+fn opcode_u8(op: OpCode) -> (r: u8) ensures r == opcode_byte(op) { op as u8 }
 //@enum file=yarel/src/scanner.rs name=TokenKind
 pub struct Token { pub kind: TokenKind, pub line: usize, pub source: String }
 impl Token {
@@ -40,6 +43,7 @@ pub struct Parser {
     pub class_compilers: Vec<ClassCompiler>,
     pub ghost resolved: Seq<Seq<char>>,     // the names handed to named_variable, in order
     pub ghost had_error: bool,
+    pub ghost tail_ops: Seq<u8>,            // bytes emitted one by one since the last variable access was compiled
 }
 
 // the receiver's variable name: slot 0 of the innermost compiler that names its slot 0 (methods: `self` / `Self`;
@@ -54,12 +58,12 @@ pub open spec fn receiver_of(cs: Seq<Compiler>) -> Seq<char>
 
 impl Parser {
     pub open spec fn wf(&self) -> bool { self.compilers@.len() > 0 && forall|i: int| 0 <= i < self.compilers@.len() ==> (#[trigger] self.compilers@[i]).locals@.len() > 0 }
-    pub open spec fn quiet(&self, o: &Parser) -> bool { self.compilers == o.compilers && self.class_compilers == o.class_compilers && self.resolved == o.resolved && (self.had_error ==> o.had_error) }
+    pub open spec fn quiet(&self, o: &Parser) -> bool { self.compilers == o.compilers && self.class_compilers == o.class_compilers && self.resolved == o.resolved && self.tail_ops == o.tail_ops && (self.had_error ==> o.had_error) }
 
     #[verifier::external_body]
     fn compiler(&self) -> (r: &Compiler) requires self.compilers@.len() > 0 ensures *r == self.compilers@.last() { unimplemented!() }
     #[verifier::external_body]
-    fn error(&mut self, message: &str) ensures final(self).compilers == old(self).compilers, final(self).class_compilers == old(self).class_compilers, final(self).resolved == old(self).resolved, final(self).had_error { unimplemented!() }
+    fn error(&mut self, message: &str) ensures final(self).compilers == old(self).compilers, final(self).class_compilers == old(self).class_compilers, final(self).resolved == old(self).resolved, final(self).tail_ops == old(self).tail_ops, final(self).had_error { unimplemented!() }
     #[verifier::external_body]
     fn consume(&mut self, kind: TokenKind, message: &str) ensures old(self).quiet(final(self)) { unimplemented!() }
     #[verifier::external_body]
@@ -71,11 +75,11 @@ impl Parser {
     #[verifier::external_body]
     fn emit_constant_op(&mut self, opcode: OpCode, constant: u16) ensures old(self).quiet(final(self)) { unimplemented!() }
     #[verifier::external_body]
-    fn emit_byte(&mut self, byte: u8) ensures old(self).quiet(final(self)) { unimplemented!() }
+    fn emit_byte(&mut self, byte: u8) ensures final(self).compilers == old(self).compilers, final(self).class_compilers == old(self).class_compilers, final(self).resolved == old(self).resolved, final(self).had_error == old(self).had_error, final(self).tail_ops == old(self).tail_ops.push(byte) { unimplemented!() }
     // compiler.rs named_variable: resolves the name (local, captured variable, global — C06) and emits the access
     #[verifier::external_body]
     fn named_variable(&mut self, name: Token, can_assign: bool)
-        ensures final(self).resolved == old(self).resolved.push(name.source@), final(self).compilers@.len() == old(self).compilers@.len(), final(self).class_compilers == old(self).class_compilers, old(self).had_error ==> final(self).had_error
+        ensures final(self).resolved == old(self).resolved.push(name.source@), final(self).tail_ops == Seq::<u8>::empty(), final(self).compilers@.len() == old(self).compilers@.len(), final(self).class_compilers == old(self).class_compilers, old(self).had_error ==> final(self).had_error
     { unimplemented!() }
 
     //@fn file=yarel/src/compiler.rs path=Parser::receiver_name ret=r
@@ -94,7 +98,7 @@ impl Parser {
     // compiler.rs Parser::variable: resolves the token just consumed like any other name
     #[verifier::external_body]
     fn variable(s: &mut Parser, can_assign: bool)
-        ensures final(s).resolved == old(s).resolved.push(old(s).previous.source@), final(s).compilers@.len() == old(s).compilers@.len(), final(s).class_compilers == old(s).class_compilers, old(s).had_error ==> final(s).had_error
+        ensures final(s).resolved == old(s).resolved.push(old(s).previous.source@), final(s).tail_ops == Seq::<u8>::empty(), final(s).compilers@.len() == old(s).compilers@.len(), final(s).class_compilers == old(s).class_compilers, old(s).had_error ==> final(s).had_error
     { unimplemented!() }
     // `self` names the receiver of the ENCLOSING METHOD, however many plain functions lie in between; where that method is
     // a static method (its slot 0 is called `Self`) there is no receiver: a compile error, not whatever an outer
@@ -104,6 +108,14 @@ impl Parser {
     //@  requires old(s).wf()
     //@  ensures @self_inside_a_static_method_is_a_compile_error_however_deeply_nested (old(s).class_compilers@.len() > 0 && receiver_of(old(s).compilers@) == "Self"@) ==> final(s).had_error && final(s).resolved == old(s).resolved
     //@  ensures @self_outside_a_class_is_a_compile_error old(s).class_compilers@.len() == 0 ==> final(s).had_error && final(s).resolved == old(s).resolved
+    //@end
+
+    // `Self`: the variable named `Self` (slot 0 of the enclosing static method, reached as a captured variable from
+    // functions nested in it), then GetClass — which leaves a class as it is (classes/Vm::get_class_impl)
+    //@fn file=yarel/src/compiler.rs path=Parser::cap_self
+    //@  rewrite R21
+    //@  ensures @cap_self_outside_a_class_is_a_compile_error old(s).class_compilers@.len() == 0 ==> final(s).had_error && final(s).resolved == old(s).resolved && final(s).tail_ops == old(s).tail_ops
+    //@  ensures @cap_self_reads_the_variable_the_token_names_and_takes_its_class old(s).class_compilers@.len() > 0 ==> final(s).resolved == old(s).resolved.push(old(s).previous.source@) && final(s).tail_ops == seq![opcode_byte(OpCode::GetClass)]
     //@end
 
     //@fn file=yarel/src/compiler.rs path=Parser::super_
